@@ -240,6 +240,12 @@ fn block_of(h: u64) -> BlockInfo {
         3 => u64::MAX,
         _ => h,
     };
+    if h % 19 == 7 {
+        // the default block with nothing but the time changed
+        let mut b = cosmwasm_std::testing::mock_env().block;
+        b.time = b.time.plus_seconds(1 + h);
+        return b;
+    }
     BlockInfo { height, time, chain_id }
 }
 
